@@ -242,7 +242,12 @@ func (c *c40ctx) evalBlock(what string, prev *vbft.Block) {
 			run.Fail("C40", "selection-impossible-for-config", "%s: buildParticipantConfig fails for every seed with N=%d C=%d (%s): after excluding C leading proposers only N-C=%d peers remain but the endorser/committer loop only ends with more than 2C=%d members",
 				what, cfg.N, cfg.C, firstErr, cfg.N-cfg.C, 2*cfg.C)
 		} else {
-			run.Fail("C40", "selection-error", "%s: buildParticipantConfig failed: %s (N=%d C=%d)", what, firstErr, cfg.N, cfg.C)
+			// a selection exists for this configuration, but not for this seed: the endorser /
+			// committer walk over the seed's positions (k < 512; committers start at k = 272)
+			// ended before it had met more than 2C distinct peers outside the leading proposers
+			run.Probe("selection_fails_for_this_seed")
+			run.Fail("C40", "selection-fails-for-some-seeds", "%s: buildParticipantConfig failed for this seed: %s (N=%d C=%d, %d peers remain after excluding the leading proposers, more than %d are demanded, at most %d positions of the seed are looked at for committers)",
+				what, firstErr, cfg.N, cfg.C, cfg.N-cfg.C, 2*cfg.C, 512-vconfig.MAX_PROPOSER_COUNT-vconfig.MAX_ENDORSER_COUNT)
 		}
 		return
 	}
@@ -560,7 +565,7 @@ func init() {
 		Real:        []string{"consensus/vbft buildParticipantConfig, calcParticipantPeers, calcParticipant, getParticipantSelectionSeed (through export_verif.go)", "consensus/vbft/config GenesisChainConfig (pos table, shuffle), ChainConfig JSON codec", "vbft.Block Serialize/Deserialize", "core/genesis + ledger for runs that take seeds and the configuration from a real chain"},
 		Stub:        []string{"governance pool contents are synthesised (peer lists with increasing, possibly sparse indices in arbitrary order, as GetPeersConfig returns them from a Go map); the VBFT Server is not run"},
 		Assumptions: []string{"C is taken from the configuration under test: GenesisChainConfig sets C = N/3 (not floor((N-1)/3)); both are exercised", "seeds reachable through getParticipantSelectionSeed are SHA-512 outputs; structured raw seeds are evaluated through calcParticipantPeers directly and a raw seed without any selection is counted, not alarmed", "'exclude the leading proposers' is read as: the first C of the C+1 proposers do not reappear among endorsers or committers"},
-		QuickRuns:   1600, ThoroughRuns: 120000, QuickCap: 45, ThoroughCap: 700,
+		QuickRuns:   6000, ThoroughRuns: 400000, QuickCap: 45, ThoroughCap: 700,
 		RequiredProbes: []string{"seed_from_real_sealed_block", "seed_from_plan_vrf_bytes", "raw_seed_selection", "config_from_real_genesis_block", "peer_removed", "peer_added", "indices_non_contiguous", "peer_list_permuted"},
 		Generate:       genC40, Execute: execC40,
 	})
